@@ -69,6 +69,11 @@ func init() {
 			}
 			n := 3 + r.IntN(len(all)-2)
 			c.Ops = all[:n]
+			if c.Cfg.Compression != "" && r.IntN(2) == 0 {
+				// batched archive of 48 small, highly compressible files of consecutive sizes: somewhere in
+				// such a sweep the encoded size equals the plain size; every content still has to be encrypted
+				c.Ops = append(c.Ops, Op{K: "archive", P: "/", W: 1, N: 48, O: int64(150 + r.IntN(250)), D: &Data{Kind: "pad", Tag: 0x5eed0000 + uint32(r.IntN(1000))*100}})
+			}
 			return c
 		},
 		Eval: evalC09,
@@ -87,6 +92,13 @@ func secretsOf(ops []Op) []string {
 		}
 		if o.D != nil && o.D.Len >= 10 {
 			m[fmt.Sprintf("<%08x>", o.D.Tag)] = true
+		}
+		if o.K == "archive" {
+			for _, mem := range archiveMembers(o) {
+				if mem.D.Len >= 10 {
+					m[fmt.Sprintf("<%08x>", mem.D.Tag)] = true
+				}
+			}
 		}
 		if o.K == "chown" {
 			m[fmt.Sprint(o.U)] = true
